@@ -136,7 +136,7 @@ CHECKS = {
         'exponent {1, 2, -1, 0.5, 0}, multiplier {1, 1000, 0.25}: all 600 one-child definitions, all ordered pairs of a child menu (two children, both orders), nesting depth 1 and 2, '
         'each also imported (Importer::addModel) and reached through an imported intermediate, every built-in name as a childless object, parentless definitions one definition reaching the same resolved imported units twice (imp*imp, two imports of the same units, import plus a local or imported intermediate using it, both orders) (quick 3764 members / '
         '146 reduction classes, sub-pool 562; thorough 15996 / 294, sub-pool 1063). ALL ordered pairs of U (compatible, scalingFactor, equivalent; symmetry and inverse law), ALL triples of a sub-pool holding '
-        'every reduction class (transitivity, multiplicativity), null / dangling / parentless / unresolved arguments, child-order and import twins, and one validated two-component model '
+        'every reduction class (transitivity, multiplicativity), null / dangling / parentless / unresolved arguments and 2412 generated partially defined definitions (every sequence of 1..3 unit children over 6 undefined and 4 defined reference kinds with at least one undefined child, direct / behind an intermediate / imported; isDefined, compatible, factor, equivalent must all say no), child-order and import twins, and one validated two-component model '
         'per ordered pair of the sub-pool (verdict and both parts of the mismatch hint), plus one analysed model with executed generated C per equal-reduction pair of the sub-pool. Complete for the stated menus; nothing is sampled.',
    note='Trusted: the reference (exact rationals for exponents, log10 scale as a + b*log10(2), built-in units table typed from the CellML 2.0 specification), glibc log10/pow within 1e-12, '
         'Importer::addModel/resolveImports/flattenModel as the way imported units are made available (a flattened model whose units changed is counted, not judged). The SI-ratio oracle is '
@@ -235,7 +235,9 @@ CHECKS = {
         'every single fault (file missing, truncated at 6 prefix classes, other XML, CellML 1.1 with strict and permissive importer, 2.0 with parse errors / validation errors / parser warnings, '
         'every entity of every library file removed, every back-edge closing an import cycle of each length) on every resolvable connected graph of four of these shapes; repair sequences '
         'resolve(fault) -> [flatten] -> repair on disk / in the library -> {importer as is, after removeAllModels(), new importer} x {same root object, root parsed again} -> resolve -> flatten '
-        'on the 2- and 3-file shapes. Thorough adds 4 files x 1+1 with <= 5 imports (893 184 graphs), 3 files x 2+2 with <= 4 imports (691 489), 1|1+3|0+1 (118 098), with their fault families, '
+        'on the 2- and 3-file shapes, each repair also with the first importer and the models it loaded kept alive by the caller and with an explicit clearImports(). '
+        'Nesting dimension: shapes n2 (2 files x 2 components, 5 625 graphs) and r3 (3|1 components, 10 000) additionally carry EVERY encapsulation forest over the components of every file '
+        '(imports nested under imports / under concrete components), with their fault and repair families (quick); thorough adds the nested shapes 2+0|2+1 (33 075) and 2|2|1 (69 984). Thorough adds 4 files x 1+1 with <= 5 imports (893 184 graphs), 3 files x 2+2 with <= 4 imports (691 489), 1|1+3|0+1 (118 098), with their fault families, '
         'and repairs on three more shapes. resolveImports is compared with the reference (true exactly when every transitive import is satisfiable), then hasUnresolvedImports(), the item of the '
         'issues, flattenModel (null with an issue when unresolved), libraryCount()/key(i)/library(), Logger coherence after every call; every call runs under a stack-overflow guard so that '
         'non-termination by unbounded recursion is recorded per step and the scenario continues. Complete for the stated bounds; nothing is sampled.',
